@@ -114,8 +114,11 @@ func runCB(x *X) {
 	// the subscriber the balancer installs reads the breaker back (Counts, for its metrics);
 	// half of the runs do the same, some yield first like a subscriber that logs
 	subscriberReads := c.Intn(2, "subscriber-reads-breaker") == 1
+	// a quarter of the runs have nobody subscribed to state changes (the breaker used as a library):
+	// the transition-based history rules have nothing to look at then, the recovery claims still hold
+	noSubscriber := c.Intn(4, "no-subscriber") == 0
 	var cb *circuitbreaker.CircuitBreaker
-	cb = circuitbreaker.NewCircuitBreaker(circuitbreaker.Settings{
+	settings := circuitbreaker.Settings{
 		Name: "sim", MaxRequests: uint32(mr), Interval: interval, Timeout: timeout,
 		FailureThreshold: uint32(ft), SuccessThreshold: uint32(st),
 		OnStateChange: func(name string, from, to circuitbreaker.State) {
@@ -126,7 +129,12 @@ func runCB(x *X) {
 				_ = cb.State()
 			}
 		},
-	})
+	}
+	if noSubscriber {
+		settings.OnStateChange = nil
+		x.Probe("breaker-without-subscriber")
+	}
+	cb = circuitbreaker.NewCircuitBreaker(settings)
 	reqN := 0
 	doExec := func(op cbOp) (ret string) {
 		x.mu.Lock()
@@ -244,7 +252,7 @@ func runCB(x *X) {
 			ok = x.RunTasks(onErr)
 		}
 	}
-	if ok {
+	if ok && !noSubscriber {
 		checkCBHistory(x, evs, ft, st, mr, interval, timeout)
 	}
 
